@@ -223,3 +223,25 @@ func writeBatchSlices(w *bufio.Writer, s *vt.Sched, tag string) int {
 	}
 	return n
 }
+
+// writeLifeSlices emits the lifecycle call sequence of a lifeseq episode for coq/Lifecycle.v
+func writeLifeSlices(w *bufio.Writer, s *vt.Sched, tag string) int {
+	n := 0
+	open := false
+	for _, ev := range s.Log {
+		switch ev.Kind {
+		case "life:cfg":
+			fmt.Fprintf(w, "LIFE %s %s\n", tag, ev.Val)
+			open = true
+			n++
+		case "life:op":
+			if open {
+				fmt.Fprintf(w, "l %s\n", ev.Val)
+			}
+		}
+	}
+	if open {
+		fmt.Fprintf(w, "ENDLIFE\n")
+	}
+	return n
+}
